@@ -227,7 +227,7 @@ func scriptText(env *Env, items []Item, upto int, s solverDef, timeoutS int, sta
 			continue
 		}
 		if standalone && i != upto {
-			if !it.Ob.Cover {
+			if !it.Ob.Cover && it.Ob.Formula != "false" {
 				sb.WriteString("(assert " + it.Ob.Formula + ")\n")
 			}
 			continue
@@ -244,7 +244,10 @@ func scriptText(env *Env, items []Item, upto int, s solverDef, timeoutS int, sta
 				}
 				sb.WriteString("(get-model)\n")
 			}
-			sb.WriteString("(pop 1)\n(assert " + it.Ob.Formula + ")\n")
+			sb.WriteString("(pop 1)\n")
+			if it.Ob.Formula != "false" {
+				sb.WriteString("(assert " + it.Ob.Formula + ")\n")
+			}
 		}
 	}
 	return sb.String(), obIdx
